@@ -559,8 +559,10 @@ class HistogramBase(abc.ABC):
                     amount=amount, min_frequency=min_frequency, axis=i, inplace=True
                 )
             self._binnings = merged._binnings
+            self._dtype = merged._dtype  # (may have been widened for the sums)
             self._frequencies = merged._frequencies
             self._errors2 = merged._errors2
+            self._missed = merged._missed
         else:
             axis = self._get_axis(axis)
             if amount is not None:
@@ -612,8 +614,12 @@ class HistogramBase(abc.ABC):
 
         new_shape = list(self.shape)
         new_shape[axis] = new_size
-        new_frequencies = np.zeros(new_shape, dtype=self._frequencies.dtype)
-        new_errors2 = np.zeros(new_shape, dtype=self._frequencies.dtype)
+        dtype = self._frequencies.dtype
+        if dtype.kind in "iu" and dtype.itemsize < 8:
+            # Sums of several bins may leave a narrow integer type: add them up in int64
+            dtype = np.dtype(np.int64)
+        new_frequencies = np.zeros(new_shape, dtype=dtype)
+        new_errors2 = np.zeros(new_shape, dtype=dtype)
         self._apply_bin_map(
             old_frequencies=self._frequencies,
             new_frequencies=new_frequencies,
@@ -622,6 +628,14 @@ class HistogramBase(abc.ABC):
             bin_map=bin_map,
             axis=axis,
         )
+        if dtype != self._frequencies.dtype:
+            info = np.iinfo(self._frequencies.dtype)
+            if max(new_frequencies.max(initial=0), new_errors2.max(initial=0)) <= info.max:
+                # ... and keep the narrow type if everything still fits
+                new_frequencies = new_frequencies.astype(self._frequencies.dtype)
+                new_errors2 = new_errors2.astype(self._frequencies.dtype)
+            else:
+                self.set_dtype(dtype)
         self._frequencies = new_frequencies
         self._errors2 = new_errors2
 
